@@ -92,6 +92,15 @@ fn builder_case(i: usize, k: usize, c: &Value, rng: &mut rand::rngs::StdRng, out
 		if first_key.is_none() {
 			first_key = Some(key.clone());
 		}
+		if op["op"] == "clone" {
+			// the application goes on with a copy of the builder
+			b = match &b {
+				B::A(a) => B::A(a.clone()),
+				B::O(o) => B::O(o.clone()),
+			};
+			log.push(json!({"op": "clone"}));
+			continue;
+		}
 		let r = if op["op"] == "ins" {
 			let v = gen_value(op["v"].as_str().unwrap(), rng);
 			let r = match catch(std::panic::AssertUnwindSafe(|| match &mut b {
